@@ -47,19 +47,22 @@ AMORT = [dict(module="Amortized.tla", init="Init", inv="IndInv", length=0),
 SIMQ = dict(module="MC_Api.tla", cfg="Replay_Api.cfg", simulate=True, take=1500, depth=20, timeout=60)
 SIMT = dict(module="MC_Api.tla", cfg="Replay_Api.cfg", simulate=True, take=12000, depth=20, timeout=200)
 
+SIMS = dict(module="MC_Search.tla", cfg="MC_Search_sim.cfg", simulate=4000, depth=8, workers=4, timeout=400)
+
 PLAN = {p: std() for p in TITLES}
 # L2: the double-array layout (exact BuildHelper ring, evictions, sanitising, closure, order independence)
 # window form: all haystack lengths; char-wise: real UTF-8 against the byte-level meaning
-PLAN["C01"] = std(mcq=[DAQ, WINQ], mct=[DAT, WINT])
-PLAN["C02"] = std(mcq=[WINQ], mct=[WINT])
-PLAN["C03"] = std(mcq=[CWQ], mct=[CWT])
-PLAN["C04"] = std(mcq=[CWQ], mct=[CWT])
-PLAN["C05"] = std(mcq=[WINQ], mct=[WINT])
+PLAN["C01"] = std(mcq=[DAQ, WINQ], mct=[DAT, WINT, SIMS])
+PLAN["C02"] = std(mcq=[WINQ], mct=[WINT, SIMS])
+PLAN["C03"] = std(mcq=[CWQ], mct=[CWT, SIMS])
+PLAN["C04"] = std(mcq=[CWQ], mct=[CWT, SIMS])
+PLAN["C05"] = std(mcq=[WINQ], mct=[WINT, SIMS])
 PLAN["C07"] = std(mcq=[DAQ, U8Q, CWQ], mct=[DAT, U8T, CWT])
 PLAN["C07"]["thorough"]["miri"] = 48
-PLAN["C07"]["quick"]["miri"] = 0
+PLAN["C07"]["quick"]["miri"] = 8
 PLAN["C08"] = std(mcq=[CWQ, U8Q], mct=[CWT, U8T])
-PLAN["C09"] = std(mcq=[APIQ], mct=[APIT], rq=("Replay_quick.cfg", SIMQ), rt=("Replay_thorough.cfg", SIMT))
+FMQ, FMT = M("MC_Format", "quick"), M("MC_Format", "thorough", timeout=1800)
+PLAN["C09"] = std(mcq=[APIQ, FMQ], mct=[APIT, FMT], rq=("Replay_quick.cfg", SIMQ), rt=("Replay_thorough.cfg", SIMT))
 PLAN["C10"] = std(mcq=[DAQ], mct=[DAT])
 PLAN["C11"] = std(mcq=[DAQ], mct=[DAT])
 PLAN["C12"] = std(mcq=[APIQ, CWQ], mct=[APIT, CWT], rq=("Replay_quick.cfg", SIMQ), rt=("Replay_thorough.cfg", SIMT))
